@@ -4,6 +4,7 @@ import (
 	"bytes"
 	"fmt"
 	"io"
+	"runtime"
 	"testing"
 
 	rhp2 "go.sia.tech/core/rhp/v2"
@@ -209,6 +210,7 @@ func checkSector(c SectorCase) error {
 	nt := c.Fill != "zero" && c.Fill != "ff" || c.Chunk.Mode != "exact"
 	rec.Case(stats.FP("sector", c.Fill, c.Seed, c.Pos, c.Chunk.Mode, c.Chunk.Max, c.Chunk.Seed, c.Partial, c.ErrAt), nt, labels...)
 	rec.Extra("sectors_hashed_"+curPath(), 1)
+	rec.Label(fmt.Sprintf("cpus:%d/gomaxprocs:%d", runtime.NumCPU(), runtime.GOMAXPROCS(0)))
 
 	for _, rs := range c.Ranges {
 		if err := checkSectorRange(c, rs, sector, t, cache); err != nil {
